@@ -228,6 +228,17 @@ pub fn completion_sweep(ctx: &Ctx) -> Acc {
     interventions(ctx, "C05", false, &acts)
 }
 
+/// C18: every transmission of every schedule of the family carries the request's bytes and
+/// addressing, also after a reconfiguration (which may extend an exhausted schedule), after
+/// cancel_retransmissions and after a dropped response from another address.
+pub fn transmission_sweep(ctx: &Ctx) -> Acc {
+    let mut acts: Vec<Act> = (0..N_NAMED_CFGS as u8).map(|c| Act::Configure { id: 0, cfg: c }).collect();
+    acts.push(Act::CancelRtx { id: 0 });
+    acts.push(Act::Resp { id: 0, class: 2, auth: Auth::Sha1(2), from: 2 });
+    acts.push(Act::SendOther { kind: 3, dest: 1 });
+    interventions(ctx, "C18", true, &acts)
+}
+
 /// C07: an authenticated request with remote credentials R1; at every position of every schedule
 /// of the family a forged (other key, unsigned, corrupted, local key) response is dropped and the
 /// schedule afterwards is the one without it; a genuine response is delivered.
